@@ -122,6 +122,17 @@ def judge(src, vb, seed, tier, via="lib"):
         return "returned", f"clipped document cannot be rendered: {e}", out, {}
     if not r["ok"]:
         return "returned", r["why"], out, r["stats"]
+    # nothing may be left outside the viewBox, however thin (thinner than the renderer's band): exact boxes of the output paths
+    try:
+        root = R4.parse_xml(out)
+        lim = 2e-5 * max(vb[2], vb[3], abs(vb[0]), abs(vb[1]), 1.0)  # Skia stores float32
+        for el in root.iter():
+            if R4.split(el.tag)[1] == "path" and (el.get("d") or "").strip():
+                tb = R1.tight_box(R1.interpret_string(el.get("d")))
+                if tb and (tb[0] < vb[0] - lim or tb[1] < vb[1] - lim or tb[2] > vb[0] + vb[2] + lim or tb[3] > vb[1] + vb[3] + lim):
+                    return "returned", f"a path of the clipped document reaches outside the viewBox: its exact box is {tuple(round(v, 6) for v in tb)}, the viewBox {vb}", out, r["stats"]
+    except (R1.Reject, ValueError) as e:  # noqa
+        return "returned", f"clipped document has unreadable path data: {e}", out, r["stats"]
     bad = R4.validate(out, ndigits=None)  # clip_to_viewbox has no ndigits contract: rounding is not judged here
     if bad:
         return "returned", "clipped document violates the picosvg grammar: " + "; ".join(bad)[:300], out, r["stats"]
@@ -140,7 +151,7 @@ def evaluate(case):
     items = [tuple(i) for i in case["items"]]
     src = source_doc(vb, items, case.get("group", False), case.get("covering", False))
     o, why, out, st = judge(src, vb, case["seed"], case["tier"], case.get("via", "lib"))
-    straddle = any(g in (0.0, 1.0) for _, gx, gy in items for g in (gx, gy)) or case.get("covering", False)
+    straddle = any(g in (0.0, 1.0) for _, gx, gy in items for g in (gx, gy)) or case.get("covering", False) or case.get("hair", False)
     outside = any(g in (-0.42, 1.42) for _, gx, gy in items for g in (gx, gy))
     nt = src if (o == "returned" and (straddle or outside)) else None
     rec = {"out": o, "nt": nt, "viol": [], "cnt": {"compared_points": st.get("compared", 0)}}
@@ -341,6 +352,11 @@ def all_clip_cases(tier, seed):
                 yield {"fam": "clip", "vb": list(vb), "items": [[s, gx, gy]], "tier": tier, "seed": seed}
         for s in ("rect", "ring", "group"):
             yield {"fam": "clip", "vb": list(vb), "items": [[s, 0.5, 0.5]], "covering": True, "tier": tier, "seed": seed}
+    # shapes that stick out of the viewBox by a hair (0.05% / 0.002% of its size) on one or two sides
+    for vb in VIEWBOXES:
+        for s in ("rect", "circle", "tri", "bbrect"):
+            for gx, gy in ((0.8205, 0.5), (0.82002, 0.5), (0.5, 0.1795), (0.8205, 0.82002), (0.17998, 0.8205)):
+                yield {"fam": "clip", "vb": list(vb), "items": [[s, gx, gy]], "tier": tier, "seed": seed, "hair": True}
     # geometry that misses the viewBox although its box overlaps it, alone and between two shapes that stay
     for vb in VIEWBOXES:
         for s, gx, gy in (("frame", 0.5, 0.5), ("cornerL", 1.0, 1.0), ("diag", 0.0, 0.0)):
